@@ -3,9 +3,55 @@ package main
 import (
 	"fmt"
 	"go/ast"
+	"go/constant"
+	"go/parser"
 	"go/token"
+	"os"
+	"path/filepath"
 	"strings"
 )
+
+// packageConsts collects the package-level constant specifications of every non-test file of one
+// directory (a scalar function may name a constant instead of writing the literal).
+func packageConsts(repo, dir string) *constEnv {
+	env := &constEnv{specs: map[string]ast.Expr{}}
+	ents, err := os.ReadDir(filepath.Join(repo, dir))
+	if err != nil {
+		return env
+	}
+	for _, e := range ents {
+		n := e.Name()
+		if e.IsDir() || !strings.HasSuffix(n, ".go") || strings.HasSuffix(n, "_test.go") {
+			continue
+		}
+		f, perr := parser.ParseFile(token.NewFileSet(), filepath.Join(repo, dir, n), nil, 0)
+		if perr != nil {
+			continue
+		}
+		for _, d := range f.Decls {
+			gd, ok := d.(*ast.GenDecl)
+			if !ok || gd.Tok != token.CONST {
+				continue
+			}
+			addConstSpecs(env.specs, gd)
+		}
+	}
+	return env
+}
+
+func addConstSpecs(specs map[string]ast.Expr, gd *ast.GenDecl) {
+	for _, sp := range gd.Specs {
+		vs, ok := sp.(*ast.ValueSpec)
+		if !ok {
+			continue
+		}
+		for i, nm := range vs.Names {
+			if i < len(vs.Values) {
+				specs[nm.Name] = vs.Values[i]
+			}
+		}
+	}
+}
 
 // scalar functions: one integer-like parameter (rune / byte), loop-free body of
 // returns, ifs and tagless switches; translated to a Gallina function on Z.
@@ -16,6 +62,7 @@ type scalarTr struct {
 	boolRes  bool
 	known    map[string]string
 	paramTyp string
+	consts   *constEnv // constants of the package (named constants are replaced by their values)
 }
 
 func (t *scalarTr) fail(format string, args ...any) { panic(trErr{fmt.Sprintf(format, args...)}) }
@@ -33,6 +80,18 @@ func (t *scalarTr) num(e ast.Expr) string {
 	case *ast.Ident:
 		if x.Name == t.param {
 			return x.Name
+		}
+		if t.consts != nil {
+			if _, isConst := t.consts.specs[x.Name]; isConst {
+				v, err := t.consts.eval(x)
+				if err != nil {
+					t.fail("constant %s: %v", x.Name, err)
+				}
+				if n, exact := constant.Int64Val(constant.ToInt(v)); exact && constant.ToInt(v).Kind() == constant.Int {
+					return fmt.Sprint(n)
+				}
+				t.fail("constant %s is not an integer", x.Name)
+			}
 		}
 		t.fail("unknown identifier %s", x.Name)
 	case *ast.BinaryExpr:
@@ -173,7 +232,7 @@ func (t *scalarTr) stmts(list []ast.Stmt) string {
 	return ""
 }
 
-func translateScalar(f *ast.File, name, coq string, known map[string]string) (def string, err error) {
+func translateScalar(f *ast.File, name, coq string, known map[string]string, consts *constEnv) (def string, err error) {
 	fd := findFunc(f, name)
 	if fd == nil {
 		return "", fmt.Errorf("function %s not found", name)
@@ -201,7 +260,7 @@ func translateScalar(f *ast.File, name, coq string, known map[string]string) (de
 	if rt == nil {
 		return "", fmt.Errorf("%s: unexpected result type", name)
 	}
-	t := &scalarTr{param: fd.Type.Params.List[0].Names[0].Name, known: known}
+	t := &scalarTr{param: fd.Type.Params.List[0].Names[0].Name, known: known, consts: consts}
 	resT := "Z"
 	switch rt.Name {
 	case "bool":
@@ -212,7 +271,26 @@ func translateScalar(f *ast.File, name, coq string, known map[string]string) (de
 	default:
 		return "", fmt.Errorf("%s: unsupported result type %s", name, rt.Name)
 	}
-	body := t.stmts(fd.Body.List)
+	// constants declared inside the function itself shadow the package's
+	var stmts []ast.Stmt
+	for _, st := range fd.Body.List {
+		if ds, ok := st.(*ast.DeclStmt); ok {
+			if gd, isGen := ds.Decl.(*ast.GenDecl); isGen && gd.Tok == token.CONST {
+				local := &constEnv{specs: map[string]ast.Expr{}}
+				if t.consts != nil {
+					for k, v := range t.consts.specs {
+						local.specs[k] = v
+					}
+				}
+				addConstSpecs(local.specs, gd)
+				t.consts = local
+
+				continue
+			}
+		}
+		stmts = append(stmts, st)
+	}
+	body := t.stmts(stmts)
 	return fmt.Sprintf("Definition %s (%s : Z) : %s :=\n  %s.\n\n", coq, t.param, resT, body), nil
 }
 
@@ -231,7 +309,7 @@ func genBytePreds(repo string) (string, error) {
 			return "", err
 		}
 		coq := "gen_" + r.name
-		def, err := translateScalar(f, r.name, coq, known)
+		def, err := translateScalar(f, r.name, coq, known, packageConsts(repo, filepath.Dir(r.file)))
 		if err != nil {
 			return "", err
 		}
